@@ -616,7 +616,7 @@ impl Tree {
         let header_stub_hash = Byte32::zero();
         for (i, tx) in txs.iter().enumerate() {
             let mut in_cap: u128 = 0;
-            for input in tx.inputs().into_iter() {
+            for (input_idx, input) in tx.inputs().into_iter().enumerate() {
                 if i == 0 || tx.is_cellbase() {
                     continue;
                 }
@@ -627,7 +627,7 @@ impl Tree {
                     None => return Err(format!("tx {i} input not live in model: {}", input.previous_output())),
                 };
                 freed += occupied_shannons(&cell.output, cell.data.len());
-                let (maxw, interest) = self.withdraw_value(&cell, tx, parent)?;
+                let (maxw, interest) = self.withdraw_value(&cell, tx, input_idx, parent)?;
                 in_cap += maxw as u128;
                 withdrawn_interest += interest as u128;
             }
@@ -752,10 +752,10 @@ impl Tree {
     /// NervosDAO phase-2 withdrawals: counted*AR_w/AR_d + occupied.
     pub fn dao_withdraw_value(&self, cell: &LiveCell, parent: &H) -> Result<(u64, u64), String> {
         let tx = TransactionBuilder::default().build();
-        self.withdraw_value(cell, &tx, parent)
+        self.withdraw_value(cell, &tx, 0, parent)
     }
 
-    fn withdraw_value(&self, cell: &LiveCell, tx: &TransactionView, parent: &H) -> Result<(u64, u64), String> {
+    fn withdraw_value(&self, cell: &LiveCell, tx: &TransactionView, input_idx: usize, parent: &H) -> Result<(u64, u64), String> {
         let c = cap(&cell.output);
         let is_dao = cell
             .output
@@ -777,10 +777,31 @@ impl Tree {
         let w = self
             .ancestor(parent, cell.block_number)
             .ok_or("withdraw header not an ancestor")?;
-        let d = self
-            .ancestor(parent, deposit_number)
-            .ok_or("deposit header not an ancestor")?;
-        let _ = tx;
+        // the deposit block is the header dep named by the input's witness (RFC 0023: index in
+        // WitnessArgs.input_type); without a readable witness: the number recorded in the cell
+        let named: Option<H> = tx
+            .witnesses()
+            .get(input_idx)
+            .and_then(|w| packed::WitnessArgs::from_slice(&w.raw_data()).ok())
+            .and_then(|wa| wa.input_type().to_opt().map(|b| b.raw_data()))
+            .filter(|b| b.len() == 8)
+            .map(|b| u64::from_le_bytes(b[..8].try_into().unwrap()))
+            .and_then(|i| tx.header_deps().get(i as usize));
+        let d = match named {
+            Some(h) => {
+                let b = self.blocks.get(&h).ok_or("named deposit header unknown")?;
+                if !self.is_ancestor(&h, parent) {
+                    return Err("named deposit header not an ancestor".into());
+                }
+                b
+            }
+            None => self
+                .ancestor(parent, deposit_number)
+                .ok_or("deposit header not an ancestor")?,
+        };
+        if d.number >= w.number {
+            return Err("deposit block not before the withdrawing block".into());
+        }
         let occupied = occupied_shannons(&cell.output, cell.data.len()) as u64;
         let counted = c - occupied;
         let wv = (counted as u128 * w.dao.ar as u128 / d.dao.ar as u128) as u64 + occupied;
